@@ -586,20 +586,20 @@ func cmdCrash(args []string) int {
 		im := &imager{ctl: ctl, dir: dir, tr: tr, out: join(imgroot, fmt.Sprintf("s%d", si)), max: *maxImg}
 		im.sink = func(img Image) { cr.submit(s, img, r) }
 		ctl.OnFsPre = im.onFsPre
-		if err := run.open(true); err != nil {
-			res.Err = err.Error()
-		} else {
+		withWatchdog("crash script "+s.ID, 180*time.Second, func() {
+			if err := run.open(true); err != nil {
+				res.Err = err.Error()
+				return
+			}
 			for _, step := range s.Steps {
 				if err := run.step(step); err != nil {
 					res.Err = err.Error()
-					break
+					return
 				}
 			}
-			if res.Err == "" {
-				run.drain()
-				run.st.Close()
-			}
-		}
+			run.drain()
+			run.st.Close()
+		})
 		ctl.OnFsPre = nil
 		db, _, _, lv := countFiles(dir)
 		res.DBFiles, res.Levels = db, lv
